@@ -7,6 +7,15 @@
 (*   cbounds, vbounds, pens, ws (weights in halves), lims, caps, pols (1 SHARED / 0 FATPIPE)                         *)
 (*                    parameter alphabets (sequences of integers; -simulate draws from them with repetitions)        *)
 (*   late             1: expand may also be applied to a variable that already went through a solve                  *)
+(*   fam              0 = general mix (NextSim under -simulate); 1 = waiting queues (NextQ under -simulate, C18);        *)
+(*                    2 = the exhaustive scope of waiting queues (C18, LmmGen_wake.cfg: abstract states merged by        *)
+(*                    ViewQ, no solve before the end, elements are given to the newest variable only as the resource    *)
+(*                    models do, variables are created before the first resume / free (the order of the waiting lists  *)
+(*                    of the code is the order of creation either way), only enabled variables are freed, no suspension *)
+(*                    when susp = 0): the history of every transition that wakes >= 2 staged variables waiting on one   *)
+(*                    constraint is printed (the check appends a solve and replays it)                                   *)
+(*   susp             0: no vpen(v, 0) is generated (the two recorded deviations of update_variable_penalty)              *)
+(*   maxw             largest cumulated weight of an element (in halves)                                                  *)
 (*   ff               sequence of k for FastForward (empty: never)                                                   *)
 (*   bases            sequence of base histories (sequences of [op, a, b, c]); the exploration starts after one of   *)
 (*                    them (an empty base = the empty system)                                                        *)
@@ -25,16 +34,30 @@ Lims    == ToSet(Params.lims)
 Caps    == ToSet(Params.caps)
 FFs     == ToSet(Params.ff)
 Bases   == Params.bases
-MaxW    == 8
+MaxW    == Params.maxw
 
 VARIABLES s, hist, left
 vars == <<s, hist, left>>
 
 O(op, a, b, c) == [op |-> op, a |-> a, b |-> b, c |-> c]
 
+\* concurrency coverage of an operation that took the system from u to t (C18; measured on the generator's own choice,
+\* counted by the check as a vacuity guard): n = staged variables it enabled; q = the largest number of them waiting on
+\* one and the same limited constraint (>= 2: the scan of that constraint by on_disabled_var has to go on after its first
+\* success); z = 1 when, on such a constraint, one of them takes no slot (element of weight < 1, e.g. cross-traffic)
+Woken(u, t) == { v \in Vars(u) : u.stg[v] > 0 /\ t.alive[v] /\ t.pen[v] > 0 }
+WakeInfo(u, o, t) ==
+  IF o.op \notin {"free", "expand"} \/ Woken(u, t) = {} THEN [n |-> 0, q |-> 0, z |-> 0]
+  ELSE LET Wk == Woken(u, t)
+           On(c) == { v \in Wk : OnC(u, v, c) }
+           LC == { c \in Cons(u) : u.clim[c] >= 0 /\ On(c) # {} } IN
+       [n |-> Cardinality(Wk),
+        q |-> IF LC = {} THEN 0 ELSE IMax({ Cardinality(On(c)) : c \in LC }),
+        z |-> IF \E c \in LC : Cardinality(On(c)) >= 2 /\ \E v \in On(c) : W(u, v, c) < 2 THEN 1 ELSE 0]
+
 \* what is recorded for an operation: the operation, and for a solve the exact reference allocation
-Annot(o, t) ==
-  [op |-> o.op, a |-> o.a, b |-> o.b, c |-> o.c,
+Annot(u, o, t) ==
+  [op |-> o.op, a |-> o.a, b |-> o.b, c |-> o.c, wake |-> WakeInfo(u, o, t),
    exp   |-> IF o.op = "solve" THEN [v \in Ids(t) |-> t.val[v]] ELSE <<>>,
    gpen  |-> IF o.op = "solve" THEN t.pen ELSE <<>>,
    uniq  |-> o.op = "solve" /\ SharedOnly(t) /\ ~AnyNaN(t.val),
@@ -47,13 +70,16 @@ Replay(t, h, ops) ==
   IF ops = <<>> THEN [s |-> t, hist |-> h]
   ELSE LET o == O(Head(ops).op, Head(ops).a, Head(ops).b, Head(ops).c) IN
        IF ~OpEnabled(t, o) THEN [s |-> t, hist |-> h]        \* ill-formed base: cut there
-       ELSE LET t2 == CHOOSE x \in Post(t, o) : TRUE IN Replay(t2, Append(h, Annot(o, t2)), Tail(ops))
+       ELSE LET t2 == CHOOSE x \in Post(t, o) : TRUE IN Replay(t2, Append(h, Annot(t, o, t2)), Tail(ops))
 
 Init == \E bi \in 1..Len(Bases) :
           LET r == Replay(S0, <<>>, Bases[bi]) IN s = r.s /\ hist = r.hist /\ left = Params.len
 
 Do(o) == /\ OpEnabled(s, o)
-         /\ \E t \in Post(s, o) : s' = t /\ hist' = Append(hist, Annot(o, t))
+         /\ \E t \in Post(s, o) :
+              LET a == Annot(s, o, t) IN
+              /\ s' = t /\ hist' = Append(hist, a)
+              /\ IF Params.fam = 2 /\ a.wake.q >= 2 THEN PrintT(<<"HIST", ToJson(Append(hist, a))>>) ELSE TRUE
          /\ left' = left - 1
 
 \* exploration policy of the generator (it restricts which histories are produced, not what the operations mean):
@@ -66,17 +92,21 @@ Free    == More /\ ~NeedC /\ Pending = {}
 Used(c) == \E v \in Vars(s) : OnC(s, v, c)
 NCnew   == More /\ Pending = {} /\ Len(s.cb) < Params.maxc /\
            \E b \in CBounds \ {0} : \E p \in ToSet(Params.pols) : \E l \in Lims : Do(O("cnew", b, p, l))
-NVnew   == Free /\ Len(s.alive) < Params.maxv /\
+Building == \A j \in 1..Len(hist) : hist[j].op \in {"cnew", "vnew", "expand"}
+NVnew   == Free /\ Len(s.alive) < Params.maxv /\ (Params.fam = 2 => Building) /\
            \E p \in Pens : \E b \in VBounds : \E n \in Caps : Do(O("vnew", p, b, n))
 NExpand == More /\ ~NeedC /\ \E c \in Cons(s) : \E v \in Vars(s) : \E w \in Ws :
               /\ (Pending # {} => v \in Pending)
+              /\ (Params.fam = 2 => (v = Len(s.alive) \/         \* ... or an enabled variable runs into a full constraint
+                                      (s.pen[v] > 0 /\ ~OnC(s, v, c) /\ s.clim[c] >= 0 /\ Slack(s, c) <= 0 /\ w = 2)))
               /\ (s.young[v] \/ Params.late = 1) /\ W(s, v, c) + w <= MaxW
               /\ Do(O("expand", c, v, w))
-NFree   == Free /\ \E v \in Vars(s) : Do(O("free", v, 0, 0))
+NFree   == Free /\ \E v \in Vars(s) : (Params.fam = 2 => s.pen[v] > 0) /\ Do(O("free", v, 0, 0))
 NVbound == Free /\ \E v \in Vars(s) : \E b \in VBounds : b # s.vb[v] /\ Do(O("vbound", v, b, 0))
-NVpen   == Free /\ \E v \in Vars(s) : \E p \in Pens : (p # s.pen[v] \/ s.stg[v] > 0) /\ Do(O("vpen", v, p, 0))
+NVpen   == Free /\ \E v \in Vars(s) : \E p \in Pens : (p # s.pen[v] \/ s.stg[v] > 0) /\ (p > 0 \/ Params.susp = 1) /\
+                   Do(O("vpen", v, p, 0))
 NCbound == Free /\ \E c \in Cons(s) : \E b \in CBounds : b # s.cb[c] /\ Used(c) /\ Do(O("cbound", c, b, 0))
-NSolve  == left >= 1 /\ ((s.dirty /\ Pending = {}) \/ left = 1) /\ Do(O("solve", 0, 0, 0))
+NSolve  == left >= 1 /\ ((s.dirty /\ Pending = {} /\ Params.fam # 2) \/ left = 1) /\ Do(O("solve", 0, 0, 0))
 NFf     == Free /\ Len(s.alive) > 0 /\ \E k \in FFs : Do(O("ff", k, 0, 0))
 
 Next == NCnew \/ NVnew \/ NExpand \/ NFree \/ NVbound \/ NVpen \/ NCbound \/ NSolve \/ NFf
@@ -97,7 +127,8 @@ RExpand == More /\ ~NeedC /\
            \E w \in PickQ(Params.ws) : W(s, v, c) + w <= MaxW /\ Do(O("expand", c, v, w))
 RFree   == Free /\ \E v \in Pick(Vars(s)) : Do(O("free", v, 0, 0))
 RVbound == Free /\ \E v \in Pick(Vars(s)) : \E b \in PickQ(Params.vbounds) : b # s.vb[v] /\ Do(O("vbound", v, b, 0))
-RVpen   == Free /\ \E v \in Pick(Vars(s)) : \E p \in PickQ(Params.pens) : (p # s.pen[v] \/ s.stg[v] > 0) /\ Do(O("vpen", v, p, 0))
+RVpen   == Free /\ \E v \in Pick(Vars(s)) : \E p \in PickQ(Params.pens) : (p # s.pen[v] \/ s.stg[v] > 0) /\
+                   (p > 0 \/ Params.susp = 1) /\ Do(O("vpen", v, p, 0))
 RCbound == Free /\ \E c \in Pick({ x \in Cons(s) : Used(x) }) : \E b \in PickQ(Params.cbounds) : b # s.cb[c] /\ Do(O("cbound", c, b, 0))
 RFf     == Free /\ Len(s.alive) > 0 /\ \E k \in PickQ(Params.ff) : Do(O("ff", k, 0, 0))
 RExpand2 == RExpand
@@ -109,13 +140,45 @@ NSolve2  == NSolve
 RCbound2 == RCbound
 NextSim == RCnew \/ RVnew \/ RVnew2 \/ RExpand \/ RExpand2 \/ RExpand3 \/ RFree \/ RVbound \/ RVpen \/ RVpen2 \/ RVpen3
            \/ RCbound \/ RCbound2 \/ NSolve \/ NSolve2 \/ RFf
-SpecSim == Init /\ [][NextSim]_vars
+
+\* The family of waiting queues (Params.fam = 1, C18): the same operations, drawn so that staged variables pile up behind
+\* limited constraints and that the slots they wait for are released while they wait.  Holders: enabled variables that
+\* take a slot of a constraint behind which somebody waits; QRelease frees one of them (var_free -> on_disabled_var on
+\* each of its constraints); QBlock expands one of them on a full constraint, so that it is staged itself and gives all
+\* its slots back at once (expand -> disable_var -> on_disabled_var); QResume wakes a suspended variable (it is staged
+\* when one of its constraints is full, whatever the weight of its element there: a cross-traffic element takes no
+\* slot but still waits for one).  Suspensions (vpen 0, the recorded deviations) stay rare.
+Waiting(c) == { v \in Staged(s) : OnC(s, v, c) }
+HoldersQ(n) == { v \in Enabled(s) : \E c \in VCons(s, v) : s.clim[c] >= 0 /\ W(s, v, c) >= 2 /\ Cardinality(Waiting(c)) >= n }
+Holders == HoldersQ(1)
+FullC   == { c \in Cons(s) : s.clim[c] >= 0 /\ Slack(s, c) <= 0 }
+Asleep  == { v \in Vars(s) : s.pen[v] = 0 /\ s.stg[v] = 0 /\ Len(s.el[v]) > 0 }
+QRelease == Free /\ \E v \in Pick(Holders) : Do(O("free", v, 0, 0))
+QRelease2 == Free /\ \E v \in Pick(HoldersQ(2)) : Do(O("free", v, 0, 0))       \* at least two variables wait for the slot
+QBlock   == Free /\ \E v \in Pick({ x \in HoldersQ(2) : Len(s.el[x]) < s.cap[x] }) :
+                    \E c \in Pick({ x \in FullC : ~OnC(s, v, x) }) : Do(O("expand", c, v, 2))
+QResume  == Free /\ \E v \in Pick(Asleep) : \E p \in PickQ(Params.pens) : p > 0 /\ Do(O("vpen", v, p, 0))
+\* a new element goes to a full constraint if there is one (the queue grows), with any weight of the alphabet
+QJoin    == More /\ ~NeedC /\
+            \E v \in Pick(IF Pending # {} THEN Pending ELSE { x \in Vars(s) : s.young[x] \/ Params.late = 1 }) :
+            \E c \in Pick({ x \in FullC : OnC(s, v, x) \/ Len(s.el[v]) < s.cap[v] }) :
+            \E w \in PickQ(Params.ws) : W(s, v, c) + w <= MaxW /\ Do(O("expand", c, v, w))
+QRelease3 == QRelease2
+QResume2  == QResume
+QJoin2    == QJoin
+QBlock2   == QBlock
+NextQ == RCnew \/ RVnew \/ RVnew2 \/ RExpand \/ QJoin \/ QJoin2 \/ QResume \/ QResume2
+         \/ QRelease \/ QRelease2 \/ QRelease3 \/ QBlock \/ QBlock2 \/ RVpen \/ NSolve
+SpecSim == Init /\ [][IF Params.fam = 1 THEN NextQ ELSE NextSim]_vars
 
 \* G: every complete history is printed
 Emit == left = 0 => PrintT(<<"HIST", ToJson(hist)>>)
 
 \* M: the abstract system alone (histories and depth merged)
 ViewS == s
+\* fam = 2: what the concurrency bookkeeping depends on (the order of the elements of a variable is the order in which
+\* var_free releases its constraints)
+ViewQ == <<s.clim, s.alive, s.pen, s.stg, s.cap, s.el>>
 RefInvS == RefInv(s)
 MirrorComplete == ModifiedSetComplete(s)
 =============================================================================
